@@ -217,8 +217,10 @@ func (t *Taint) Expr(fn *ir.Func, e ast.Expr) bool {
 			if b, ok := fn.Info().Uses[id].(*types.Builtin); ok {
 				switch b.Name() {
 				case "append":
-					for _, a := range x.Args {
-						if t.Expr(fn, a) {
+					// the result shares the first operand's backing array; the other
+					// operands are copied element-wise (they matter only for deep sharing)
+					for i, a := range x.Args {
+						if (i == 0 || t.cfg.ElemCarries) && t.Expr(fn, a) {
 							return true
 						}
 					}
